@@ -69,7 +69,8 @@ def _sqrt(x):
     p = V.PATH[0]
     if p is not None:
         # sqrt(x)^2 = x and sqrt(x) >= 0 for x >= 0 (instance axioms at the use site)
-        p.assume(V.implies(V.compare(">=", x, 0), V.sand(V.compare("==", res * res, V.to_real(x)), res >= 0)))
+        # optional hypothesis group: most obligations only need sqrt(..) as an opaque real
+        p.assume_optional("sqrt", V.implies(V.compare(">=", x, 0), V.sand(V.compare("==", res * res, V.to_real(x)), res >= 0)))
     return res
 
 
@@ -83,7 +84,7 @@ def _trig(name):
         p = V.PATH[0]
         if p is not None:
             s, c = Sym(uf("u_sin", R, R)(t)), Sym(uf("u_cos", R, R)(t))
-            p.assume(V.compare("==", s * s + c * c, 1))
+            p.assume_optional("trig", V.compare("==", s * s + c * c, 1))
         return res
     return f
 
